@@ -275,6 +275,17 @@ def run_r6(ctx, rule):
     cold = [bb for bb, t in f.calls() if norm(util.cname(t)) == "flussab::write::text::ascii_digits_cold"]
     ok = bool(cold) and bool(guards.holds(f, cold[0], lambda fa: fa[0] == "bool" and fa[2] is True and fa[1][0] == "call" and norm(fa[1][2]).endswith("is_null")))
     rule.check(ok, "ascii_digits/cold-on-null", "the buffered (cold) path is taken exactly when buf_write_ptr returned null", f.loc())
+    # both paths format the caller's value itself: the fast path hands `value` to itoap::write_to_ptr, the cold path to
+    # ascii_digits_cold, unchanged (a conversion to a common wider type on the way changes what is written for the
+    # values that do not fit it)
+    for bb in cold:
+        t = f.term(bb)
+        args = [strip_bb(sy.operand(a)) for a in t["args"]]
+        rule.check(args == [("l", 1), ("l", 2)], "ascii_digits/cold-arguments", "the cold path receives the writer and the value unchanged (got %s)" % ", ".join(sy.show(sy.operand(a))[:40] for a in t["args"]), f.loc(bb))
+    for bb, t in f.calls():
+        if norm(util.cname(t)).endswith("itoap::write_to_ptr"):
+            a = strip_bb(sy.operand(t["args"][1])) if len(t["args"]) > 1 else None
+            rule.check(a == ("l", 2), "ascii_digits/fast-argument", "the fast path formats the value unchanged", f.loc(bb))
     from .c14 import inventory, check_op
     for f2, bi, si, kind, t in inventory(facts):
         if f2 is f:
